@@ -3,8 +3,8 @@ sys.path.insert(0, os.path.join(os.path.dirname(__file__), '..', 'lib'))
 import std
 import vlib
 
-RACE_ARGS = {'quick': ['-trials', 250, '-casetrials', 0, '-watchdog', 200, '-pool', 5, '-naked', 5, '-poolstate', 5],
-             'thorough': ['-trials', 6000, '-casetrials', 0, '-watchdog', 600, '-pool', 40, '-naked', 25, '-poolstate', 30]}
+RACE_ARGS = {'quick': ['-trials', 250, '-casetrials', 0, '-watchdog', 200, '-pool', 5, '-naked', 5, '-poolstate', 5, '-reuse', 12, '-embed', 10],
+             'thorough': ['-trials', 6000, '-casetrials', 0, '-watchdog', 600, '-pool', 40, '-naked', 25, '-poolstate', 30, '-reuse', 120, '-embed', 100]}
 
 
 def race_step(chk, ok_c):
@@ -61,13 +61,13 @@ def race_step(chk, ok_c):
 SPEC = {
     'prop_files': ['theories/Properties/C06.v'],
     'coq_targets': ['theories/Properties/C06.vo', 'theories/C06/Corr.vo'],
-    'closure_dirs': ['theories/C06', 'theories/Gen/Cache.v', 'theories/C12', 'theories/Gen/Reset.v'],
+    'closure_dirs': ['theories/C06', 'theories/Gen/Cache.v', 'theories/Gen/SharedState.v', 'theories/C12', 'theories/Gen/Reset.v'],
     'harness': 'c06',
     'args': {
-        'quick': ['-trials', 2500, '-casetrials', 110, '-watchdog', 300, '-pool', 10, '-naked', 10, '-poolstate', 15],
-        'thorough': ['-trials', 40000, '-casetrials', 1500, '-watchdog', 600, '-pool', 200, '-naked', 150, '-poolstate', 150],
+        'quick': ['-trials', 2500, '-casetrials', 110, '-watchdog', 300, '-pool', 10, '-naked', 10, '-poolstate', 15, '-reuse', 30, '-embed', 30],
+        'thorough': ['-trials', 40000, '-casetrials', 1500, '-watchdog', 600, '-pool', 200, '-naked', 150, '-poolstate', 150, '-reuse', 600, '-embed', 600],
     },
-    'search_args': ['-trials', 20000, '-casetrials', 0, '-pool', 100, '-naked', 100, '-poolstate', 100],
+    'search_args': ['-trials', 20000, '-casetrials', 0, '-pool', 100, '-naked', 100, '-poolstate', 100, '-reuse', 300, '-embed', 300],
     'extra': race_step,
     'assumptions': [
         'sync/atomic operations and sync.Mutex are sequentially consistent (Go memory model); the interleaving semantics models exactly those',
@@ -79,6 +79,7 @@ SPEC = {
         'PARTIAL: Go memory model for plain accesses (C06_drf shows there are no conflicting ones, DRF-SC then applies), goroutine scheduler, sync.Pool internals (modelled by contract only), reflect/unsafe are runtime and trusted',
         'the Go race detector (thorough and quick tiers run the harness under -race; it observes only the schedules that happen)',
         'syntactic translator harness/cmd/srcgen/cache.go (go/parser only): recognises the loader/finder shapes; a shape it cannot read is a translation failure',
+        'translator harness/cmd/srcgen/sharedstate.go (go/types): package-level views of package-level arrays with their constant bounds, package-level sync.Pool scratch structs with declared vs reset-assigned fields and the Get..reset..Put order; the list of kept-storage fields (C06/Shared.v scratch_neutral: trie node kids) is hand written',
     ],
 }
 
@@ -90,6 +91,6 @@ def main(chk):
 MANIFEST = {
     'category': 'proof',
     'technique': 'Coq proof by invariant induction over an interleaving small-step model (any number of threads/steps) of the copy-on-write publication protocol + syntactic translator facts on all loaders + real goroutines on fresh handles/types with cache snapshots evaluated in the model + race detector',
-    'text': 'PARTIAL. Proved for every schedule, thread count and step count of the protocol model (atomic load, search on immutable snapshot, compute, lock, re-load, re-search, fresh copy-insert, atomic store, unlock; double-checked handle init; pool contract): C06_inv (published slices sorted, duplicate-free, F-valued; snapshots are sub-arrays still published; mutex discipline), C06_linear (a completed get returns the sequential result F k), C06_monotone (nothing is lost), C06_progress + C06_crit_bounded (no deadlock; critical sections are at most 6 non-blocking steps), C06_drf + C06_private_writes (no two threads ever have conflicting plain accesses; plain writes only to unpublished private arrays), C06_pool_exclusive, C06_pool_state (pooled side coders go back to the pool dirty; a user that resets first never sees leftovers of another goroutine) + C06_pool_reset_complete (= C12_fields: that reset restores every non-neutral field of the current source), C06_search_total, C06_src_facts (the shape the translator reads off the 23 loader and 23 finder functions of the current source, incl. the insert/search index arithmetic the model computes with, and that every sync.Pool user (sideEncode, sideDecode, ...) returns an object only after its last use - the code side of the pool contract; every callback given to sideEncode/sideDecode resets the pooled coder first; the package-level DecodeNaked reflect.Value templates are only ever copied). Tied to the implementation by running 2-64 real goroutines on fresh Handles with run-time-created struct types over all five formats and both transports, comparing every result with a sequential run and evaluating the model on the snapshotted published slices; a second stream drives the pooled side encoders (Canonical handles, map keys with yielding marshalers / struct / array / interface keys, >= 8 x GOMAXPROCS goroutines, bytes vs sequential bytes); a stream of concurrent naked decodes (native timestamps into interface{}) compared with the same bytes decoded alone; a stream where operations abort inside a pooled side encoder (cycle / failing marshaler under CheckCircularRef) and later encodes of the same pointers on the same Handle must equal the encoding on a fresh Handle; the same harness runs under the race detector with a deadlock watchdog.',
+    'text': 'PARTIAL. Proved for every schedule, thread count and step count of the protocol model (atomic load, search on immutable snapshot, compute, lock, re-load, re-search, fresh copy-insert, atomic store, unlock; double-checked handle init; pool contract): C06_inv (published slices sorted, duplicate-free, F-valued; snapshots are sub-arrays still published; mutex discipline), C06_linear (a completed get returns the sequential result F k), C06_monotone (nothing is lost), C06_progress + C06_crit_bounded (no deadlock; critical sections are at most 6 non-blocking steps), C06_drf + C06_private_writes (no two threads ever have conflicting plain accesses; plain writes only to unpublished private arrays), C06_pool_exclusive, C06_pool_state (pooled side coders go back to the pool dirty; a user that resets first never sees leftovers of another goroutine) + C06_pool_reset_complete (= C12_fields: that reset restores every non-neutral field of the current source), C06_search_total, C06_src_facts (the shape the translator reads off the 23 loader and 23 finder functions of the current source, incl. the insert/search index arithmetic the model computes with, and that every sync.Pool user (sideEncode, sideDecode, ...) returns an object only after its last use - the code side of the pool contract; every callback given to sideEncode/sideDecode resets the pooled coder first; the package-level DecodeNaked reflect.Value templates are only ever copied), C06_scratch_reset_restores (the package-level pooled loader scratch typeInfoLoad / trie nodes: the reset of the current source restores every observed field whatever the last user - any goroutine, Handle or TypeInfos - left, and every Get site resets before Put) and C06_shared_views_unwritable (an empty package-level view of a package-level array, zeroByteSlice, has capacity 0: no holder can address the shared cell). Tied to the implementation by running 2-64 real goroutines on fresh Handles with run-time-created struct types over all five formats and both transports, comparing every result with a sequential run and evaluating the model on the snapshotted published slices; a second stream drives the pooled side encoders (Canonical handles, map keys with yielding marshalers / struct / array / interface keys, >= 8 x GOMAXPROCS goroutines, bytes vs sequential bytes); a stream of concurrent naked decodes (native timestamps into interface{}) compared with the same bytes decoded alone; a stream where operations abort inside a pooled side encoder (cycle / failing marshaler under CheckCircularRef) and later encodes of the same pointers on the same Handle must equal the encoding on a fresh Handle; a stream where every goroutine decodes, with its own Decoder, into its own REUSED destinations a sequence of records whose byte strings walk through the lengths nil,0,1,0,2,1,3,... and what each destination holds is compared with the sequence run alone only after ALL goroutines have finished the step (results must not share writable memory); a stream with 2-3 Handles carrying different TypeInfos (default, NewTypeInfos of other tag keys) and fresh struct types with embedding chains whose members are used as roots on every Handle before the embedding struct is first seen, judged by the embedding rules of Go computed with reflect (independent of the process state); the same harness runs under the race detector with a deadlock watchdog.',
     'note': 'Not proved: the theorem is about the protocol under sequentially consistent atomics; the Go memory model for non-atomic data, the scheduler and sync.Pool internals are runtime (trusted). The protocol model is hand written; what ties it to the code is syntactic (translator) and observational (snapshots, race detector), not a verified translation of Go.',
 }
